@@ -14,7 +14,7 @@
    with wdt * k = 1; per sub-step positive water contents and QDRAIN = 0 when FLUSS0*wdt < 0 (what Water guarantees);
    mineralisation depth and tillage mixing depth inside the profile; n >= 9 on peat soils. *)
 From Coq Require Import ZArith Reals List Bool.
-From Hermes Require Import Num RUtil NitroModel NitroProofs DayNitroModel DayNitroProofs.
+From Hermes Require Import Num RUtil NitroModel NitroProofs DayNitroModel DayNitroProofs DayNitroRun.
 Local Open Scope R_scope.
 
 (* C02: on every simulated day the change of mineral N summed over the profile equals deposition + N in irrigation
@@ -62,6 +62,26 @@ Example C02b_nonvacuous :
   exists x : dayn_in (T:=R), day_wf x 2 /\ dy_fert x = true /\ dy_add x = true /\ length (dy_subs x) = 2%nat.
 Proof. exact day_wf_nonvacuous. Qed.
 
+(* C02 over the whole RUN (every history of modelled days): any number of days, each with its own inputs, events and
+   number of sub-steps; the mineral-N profile and the three counters the balance refers to (leaching, drain loss,
+   cumulated denitrification) are carried from the end of a day to the start of the next.  Final mineral N = initial
+   + the summed gains (deposition + irrigation N + source term - crop uptake) - what the leaching counter gained - what
+   the drain counter gained - the soil's denitrification losses + the clamp slack; the losses are at most what the
+   denitrification counter gained; the clamp slack is >= 0. *)
+Theorem C02_run_balance : forall (n : nat) (days : list (dayn_in (T:=R))) (s : ncarry),
+  length (nc_c1 s) = n -> List.Forall (nday_ok n) days ->
+  let '(s', g, dl, sl) := nrun n s days in
+  Rsum (nc_c1 s') = Rsum (nc_c1 s) + g - (nc_out s' - nc_out s) - (nc_drain s' - nc_drain s) - dl + sl /\
+  dl <= nc_den s' - nc_den s /\
+  0 <= sl /\ length (nc_c1 s') = n.
+Proof. exact (fun n days s => nrun_balance_lemma n days s). Qed.
+
+Example C02_run_nonvacuous :
+  exists (days : list (dayn_in (T:=R))) (s : ncarry),
+    length days = 3%nat /\ length (nc_c1 s) = 2%nat /\ List.Forall (nday_ok 2) days.
+Proof. exact nrun_nonvacuous. Qed.
+
 Print Assumptions C02_day_balance.
 Print Assumptions C07_day_credited_once.
 Print Assumptions C07_day_pool_books.
+Print Assumptions C02_run_balance.
